@@ -48,6 +48,8 @@ Fixpoint base_structure (sl : list section) : option (bool * list label) :=
 Section Parse.
 Variables isalpha isdigit isupper : N -> bool.
 Variable lower_c : N -> str.
+(* does the source search the length-preserving lower-casing (Detect.working) *)
+Variable aligned : bool.
 (* data constants of the detectors (gen/Consts_gen.v) *)
 Variable kbs : list board.
 Variable fp_words : list str.
@@ -67,10 +69,10 @@ Definition parse (m : mwmap) (pw : str) : presult :=
   match detect_keyboard_walk isalpha isdigit lower_c kbs fp_words min_run (length pw) pw with
   | None => PErr
   | Some (sl0, walks) =>
-  match drive_all (detect_email lower_c tlds) false sl0 with
+  match drive_all (detect_email lower_c aligned tlds) false sl0 with
   | None => PErr
   | Some (sl1, emails) =>
-  match drive_all (detect_website isalpha lower_c tlds) false sl1 with
+  match drive_all (detect_website isalpha lower_c aligned tlds) false sl1 with
   | None => PErr
   | Some (sl2, webs) =>
   match drive_all (detect_year isdigit year_prefixes) true sl2 with
@@ -79,7 +81,7 @@ Definition parse (m : mwmap) (pw : str) : presult :=
   match drive_all (detect_context isdigit context_strings) true sl3 with
   | None => PErr
   | Some (sl4, ctx) =>
-  match drive_all (detect_alpha isalpha isupper lower_c (mwparse m)) false sl4 with
+  match drive_all (detect_alpha isalpha isupper lower_c aligned (mwparse m)) false sl4 with
   | None => PErr
   | Some (sl5, alphas) =>
   match drive_all (detect_digits isdigit) false sl5 with
